@@ -332,6 +332,56 @@ void h_run_accumulate(void)
   }
 }
 
+
+/* C08 / O5.6  Dumping a pending run into the block (three copies in retrieve(), extracted verbatim): the run is written only if it fits
+   in what is left of the block (tt_limit - tt), otherwise ERR_OVERFLOW; exactly `run` copies of the run byte are written, in place,
+   and the byte's frequency count grows by the same amount.  The block is a RD_CAP-entry stand-in (tt_limit is just the context
+   variable of the section). */
+#ifndef RD_COPY
+#define RD_COPY 0        /* 0 fast path, 1 slow path, 2 end of block */
+#endif
+#define RD_CAP 6
+static unsigned g_rd_used, g_rd_run0, g_rd_char;
+static int run_dump_section(struct decoder_state *ds, struct retriever_internal_state *rs, uint32_t **ptt, uint32_t *tt_limit, unsigned run, unsigned runChar)
+{
+  uint32_t *tt = *ptt;
+#if RD_COPY == 0
+#include "src/extract/run_dump_fast.inc"
+#elif RD_COPY == 1
+#include "src/extract/run_dump_slow.inc"
+#else
+#include "src/extract/run_dump_eob.inc"
+#endif
+  *ptt = tt;
+  return 999;
+}
+void h_run_dump(void)
+{
+  struct decoder_state ds; static uint32_t blk[RD_CAP + 2];
+  V_IN(unsigned, used);
+  V_IN(unsigned, run0);
+  V_IN(unsigned, ch);
+  V_IN(uint32_t, f0);
+  unsigned i;
+  V_ASSUME(used <= RD_CAP && run0 <= RD_CAP + 3 && ch <= 255 && f0 < 1000000);
+  for (i = 0; i < RD_CAP + 2; i++) blk[i] = 0xAAAA0000u + i;
+  for (i = 0; i < 256; i++) ds.ftab[i] = 0;
+  ds.ftab[ch] = f0;
+  RS.run = run0; RS.runChar = ch;
+  uint32_t *tt = blk + used;
+  int rv = run_dump_section(&ds, &RS, &tt, blk + RD_CAP, run0, ch);
+  if (run0 > RD_CAP - used) {
+    V_ASSERT(rv == ERR_OVERFLOW, "a run that does not fit in the rest of the block is rejected with ERR_OVERFLOW before anything is written");
+    { int ok = 1; for (i = 0; i < RD_CAP + 2; i++) if (blk[i] != 0xAAAA0000u + i) ok = 0; V_ASSERT(ok, "overflow: the block is untouched"); }
+    V_CANARY("overflow rejected");
+  } else {
+    V_ASSERT(rv == 999 && tt == blk + used + run0, "a run that fits is written completely and the position advances by its length");
+    { int ok = 1; for (i = 0; i < RD_CAP + 2; i++) { uint32_t want = (i >= used && i < used + run0) ? ch : 0xAAAA0000u + i; if (blk[i] != want) ok = 0; } V_ASSERT(ok, "exactly run copies of the run byte are written, in place, nothing beyond the block"); }
+    V_ASSERT(ds.ftab[ch] == f0 + run0, "the frequency of the run byte grows by the run length");
+    if (run0 == RD_CAP - used && run0 > 0) V_CANARY("run fills the block exactly");
+  }
+}
+
 #ifdef VERIF_REPLAY
 int main(void) { HARNESS(); puts("REPLAY-PASS"); return 0; }
 #endif
